@@ -245,10 +245,12 @@ def corpus_inputs(ctx):
 
 def run(ctx):
     bindir = vlib.build_harness(True, bins=["symdump"])
-    fails = vlib.proof_step(ctx, "TG.Props.C03", THEOREMS, ["props/C03.vo"], TRUSTED, translators=["t_panicsites", L.SOURCE_TRANSLATOR] + INDEXER_TRANSLATORS)
+    fails = vlib.proof_step(ctx, "TG.Props.C03", THEOREMS, ["props/C03.vo"], TRUSTED, translators=["t_panicsites", L.SOURCE_TRANSLATOR] + INDEXER_TRANSLATORS + ["t_completion"])
     L.source_tie(ctx, fails)
     # group bridge: the indexer model never reaches a modelled panic / fuel exhaustion; the model pipeline returns
     L.extra_props(ctx, fails, "TG.Props.C03Indexer", INDEXER_THEOREMS, "props/C03Indexer.vo", INDEXER_TRUSTED)
+    # builder bridge: the complete analysis (all nine queries from the texts) is total; its queries agree with abs (index_ws w)
+    L.pipeline_all(ctx, fails)
     try:
         gen = open(vlib.COQ + "/gen/GenPanicSites.v").read()
         ctx.cov["panic_sites_inventoried"] = gen.count("%nat)")
